@@ -13,15 +13,19 @@ import subprocess
 import sys
 
 VERIF = os.path.dirname(os.path.dirname(os.path.abspath(__file__)))
-SEEDED = os.path.join(VERIF, "seeded")
+SEEDED = os.environ.get("SEED_DIR", os.path.join(VERIF, "seeded"))   # a snapshot copy of /verif may run the checks while /verif is being edited
 
 
 def sh(cmd, **kw):
     return subprocess.run(cmd, shell=True, stdout=subprocess.PIPE, stderr=subprocess.STDOUT, text=True, **kw)
 
 
+WT_ROOT = os.environ.get("SEED_WT", "/tmp/wt")
+OUT_ROOT = os.environ.get("SEED_OUT", "/tmp/wt_out")
+
+
 def confirm(prop, m):
-    wt, src = "/tmp/wt/%s" % prop, "/tmp/wt_out/%s/%s" % (prop, m)
+    wt, src = "%s/%s" % (WT_ROOT, prop), "%s/%s/%s" % (OUT_ROOT, prop, m)
     env = "cd %s && PYTHONPATH=%s PYTHONHASHSEED=0 timeout 900 /venv/bin/python" % (wt, wt)
     sh("git -C %s checkout -q -- ." % wt)
     d0 = sh("%s %s/demo.py" % (env, src))
@@ -39,16 +43,18 @@ def run_check(sid, tier="quick"):
     d = os.path.join(SEEDED, sid)
     meta = json.load(open(os.path.join(d, "meta.json")))
     prop = meta["property"]
-    if sh("git -C /repo diff --quiet").returncode:
-        raise SystemExit("/repo not clean")
-    ap = sh("git -C /repo apply %s/patch.diff" % d)
+    repo = os.environ.get("SEED_REPO", "/repo")         # a scratch clone keeps /repo free for other checks
+    out = os.environ.get("SEED_OUT_DIR", "/tmp/seedout")
+    if sh("git -C %s diff --quiet" % repo).returncode:
+        raise SystemExit("%s not clean" % repo)
+    ap = sh("git -C %s apply %s/patch.diff" % (repo, d))
     if ap.returncode:
         meta["check_result"] = {"error": "patch no longer applies to /repo HEAD: " + ap.stdout[-300:]}
     else:
         try:
-            r = sh("cd %s && bin/check %s --tier %s" % (VERIF, prop, tier))
+            r = sh("cd %s && VERIF_REPO=%s VERIF_OUT=%s bin/check %s --tier %s" % (VERIF, repo, out, prop, tier))
         finally:
-            sh("git -C /repo checkout -- .")
+            sh("git -C %s checkout -- ." % repo)
         viol = re.findall(r"^VIOLATION .*", r.stdout, re.M)
         clauses = {}
         for c in re.findall(r"^  clause=(.*?) case=", r.stdout, re.M):
@@ -66,16 +72,18 @@ def run_check(sid, tier="quick"):
 
 def main():
     a = sys.argv[1:]
-    if a[0] == "add":
+    if a[0] in ("add", "confirm"):
+        # confirm <PROP> <mN in the agent's output> <needs> [<mK to store it as>] : confirm and store only (no check run; parallel-safe)
         prop, m, needs = a[1], a[2], a[3]
+        dst = a[4] if len(a) > 4 else m
         ok, info = confirm(prop, m)
         print(prop, m, "confirmed" if ok else "NOT CONFIRMED", info)
         if not ok:
             return 1
-        sid = "%s-%s" % (prop, m)
+        sid = "%s-%s" % (prop, dst)
         d = os.path.join(SEEDED, sid)
         os.makedirs(d, exist_ok=True)
-        src = "/tmp/wt_out/%s/%s" % (prop, m)
+        src = "%s/%s/%s" % (OUT_ROOT, prop, m)
         for f in ("patch.diff", "demo.py", "notes.md"):
             sh("cp %s/%s %s/" % (src, f, d))
         meta = {"id": sid, "property": prop, "origin": "independent sub-agent given only the property text and a scratch worktree",
@@ -83,7 +91,8 @@ def main():
                 "confirmed_in_scratch_worktree": info,
                 "how_to_run": "git -C /repo apply /verif/seeded/%s/patch.diff && bin/check %s ; git -C /repo checkout -- ." % (sid, prop)}
         json.dump(meta, open(os.path.join(d, "meta.json"), "w"), indent=1)
-        run_check(sid)
+        if a[0] == "add":
+            run_check(sid)
     elif a[0] == "run":
         tier = "quick"
         if "--tier" in a:
